@@ -621,7 +621,7 @@ func RangeOfIdentifier(source logger.Source, loc logger.Loc) logger.Range {
 	i := 0
 	n := len(text)
 
-	for {
+	for i < n {
 		c, width := utf8.DecodeRuneInString(text[i:])
 		if IsNameContinue(c) {
 			i += width
